@@ -6,10 +6,10 @@
    "conj1_ok U f" reads: for every n, q < n, row w, state psi, basis index b of length n,
         (U on qubit q) (P_w psi) (b) = P_{f applied to columns q of w} ((U on qubit q) psi) (b)
    i.e. the rule maps the row encoding of P to the row encoding of U P U^dagger. *)
-From Coq Require Import ZArith List Bool Arith PrimFloat.
+From Coq Require Import ZArith List Bool Arith Lia PrimFloat.
 From QV Require Import Base.Mat Base.Zi C12.ModelFloat C12.ModelTableau C12.ModelExec C12.ModelMeasure
   C12.Pauli C12.ProofsRules C12.ProofsCircuit C12.ProofsFloat C12.ProofsMeasure C12.ProofsMeasure2
-  C12.ProofsMeasure3 C12.ProofsExec.
+  C12.ProofsMeasure3 C12.ProofsBorn C12.ModelAG04 C12.ProofsAG04 C12.ProofsExec.
 Import ListNotations.
 Local Open Scope Z_scope.
 
@@ -298,6 +298,58 @@ Theorem tableau_inv_gate : forall n o T, Inv n T -> op_symp o = true -> op_valid
 Proof. exact ProofsMeasure3.Inv_tab_op. Qed.
 Print Assumptions tableau_inv_gate.
 
+Theorem determined_row_is_zq : forall n T q,
+  Inv n T -> (q < n)%nat -> (forall i, (i < n)%nat -> bit q (rx (trow T (n + i))) = false) ->
+  rx (determined_spec n T q) = zeros n /\ rz (determined_spec n T q) = unit_vec n q.
+Proof. exact ProofsBorn.determined_row_is_zq. Qed.
+Print Assumptions determined_row_is_zq.
+
+Theorem tableau_inv_zero_state : forall n, Inv n (zero_state n).
+Proof. exact ProofsBorn.Inv_zero_state. Qed.
+Print Assumptions tableau_inv_zero_state.
+
+(* Born support of a WHOLE sampled bitstring: Good n T psi = the commutation relations hold, psi is not the
+   zero vector, the stabiliser rows stabilise psi; agrees b qs s = the bits of b on the measured qubits are s *)
+Theorem born_support : forall qs n T o s T' psi,
+  Good n T psi -> Forall (fun q => (q < n)%nat) qs ->
+  M_spec n T qs o = Some (s, T') ->
+  exists b, length b = n /\ psi b <> zi0 /\ agrees b qs s.
+Proof. exact ProofsBorn.born_support. Qed.
+Print Assumptions born_support.
+
+Theorem born_support_circuit : forall n os qs o s T',
+  Forall (fun o => sop_check o = true) os -> Forall (sop_valid n) os ->
+  Forall (fun o => op_symp (sop_op o) = true) os ->
+  nonzero n (run_spec os psi0) -> Forall (fun q => (q < n)%nat) qs ->
+  M_real n (exec (map sop_op os) (zero_state n)) qs o = Some (s, T') ->
+  exists b, length b = n /\ run_spec os psi0 b <> zi0 /\ agrees b qs s.
+Proof. exact ProofsBorn.born_support_circuit. Qed.
+Print Assumptions born_support_circuit.
+
+Theorem born_support_execute : forall half n c l T qs o s T',
+  sops_of c = Some l -> Forall (sop_valid n) l -> execute_circuit_at half n c = Final T ->
+  nonzero n (run_spec l psi0) -> Forall (fun q => (q < n)%nat) qs ->
+  M_real n T qs o = Some (s, T') ->
+  exists b, length b = n /\ run_spec l psi0 b <> zi0 /\ agrees b qs s.
+Proof. exact ProofsBorn.born_support_execute. Qed.
+Print Assumptions born_support_execute.
+
+Example born_support_nonvacuous :
+  Good 3 witness_T (run_spec witness_sops psi0)
+  /\ exists s T', M_real 3 witness_T [2; 0; 1]%nat [true] = Some (s, T') /\ s = [false; true; true].
+Proof.
+  split.
+  - split; [apply ProofsMeasure3.Inv_b_sound; vm_compute; reflexivity|]. split.
+    + exists [false; false; false]. split; [reflexivity|]. vm_compute. discriminate.
+    + intros i Hi. intros b Hb.
+      assert (Hi3 : i = 0%nat \/ i = 1%nat \/ i = 2%nat) by lia.
+      assert (Hin : In b (allbits 3)) by (now apply ProofsBorn.in_allbits).
+      assert (HB : stabilises_b 3 (trow witness_T (3 + i)) (run_spec witness_sops psi0) = true)
+        by (destruct Hi3 as [-> | [-> | ->]]; vm_compute; reflexivity).
+      unfold stabilises_b in HB. rewrite forallb_forall in HB. apply ProofsRules.zi_eqb_true. now apply HB.
+  - eexists. eexists. split; [vm_compute; reflexivity|reflexivity].
+Qed.
+
 Example measurement_theorems_nonvacuous :
   Inv 3 (zero_state 3) /\ nonzero 3 psi0 /\ stabilises_b 3 (determined_spec 3 witness_T 2) (run_spec witness_sops psi0) = true.
 Proof.
@@ -322,3 +374,25 @@ Example rowsum_ok_nonvacuous :
   /\ (total_ag ([true; false], [false; false], false) ([true; true], [true; true], true)) mod 2 = 1
   /\ (total_ag w_ZZ w_XX) mod 2 = 0.
 Proof. repeat split. Qed.
+
+(* ================= (5) tableau -> circuit (Aaronson-Gottesman 2004) ================= *)
+Theorem ainvert_undoes : forall n c T, Forall (agate_valid n) c -> rows_wf n T ->
+  run_agates (ainvert c) (run_agates c T) = T.
+Proof. exact ProofsAG04.ainvert_undoes. Qed.
+Print Assumptions ainvert_undoes.
+
+Theorem sweeps_identity : forall n T, Inv n T -> trow T (2 * n) = zero_row n ->
+  fst (ag04_sweeps n T) = zero_state n
+  /\ Forall (agate_valid n) (snd (ag04_sweeps n T))
+  /\ fst (ag04_sweeps n T) = run_agates (rev (snd (ag04_sweeps n T))) T.
+Proof. exact ProofsAG04.sweeps_identity. Qed.
+Print Assumptions sweeps_identity.
+
+Theorem ag04_ok : forall n T, Inv n T -> trow T (2 * n) = zero_row n ->
+  run_agates (ag04 n T) (zero_state n) = T.
+Proof. exact ProofsAG04.ag04_ok. Qed.
+Print Assumptions ag04_ok.
+
+Example ag04_ok_nonvacuous :
+  Inv 3 witness_T /\ trow witness_T (2 * 3) = zero_row 3 /\ length (ag04 3 witness_T) = 6%nat.
+Proof. split; [apply ProofsMeasure3.Inv_b_sound; vm_compute; reflexivity|]. split; vm_compute; reflexivity. Qed.
